@@ -139,6 +139,24 @@ def body_expand(case, note):
     d2 = h.HTMLDocument(*[build(x) for x in exp]).render(lib_prefix=case["lib"])
     check(d1["html"] == d2["html"], "HTMLDocument.render() differs from the document of the expanded tree", d2["html"], d1["html"])
     check([S.snap(d) for d in d1["dependencies"]] == [S.snap(d) for d in d2["dependencies"]], "HTMLDocument dependencies differ from the expanded tree's")
+    # the lone-<html> and lone-<body> document shapes take their own code paths
+    for wrap in ("html", "body", "html-head"):
+        def doc_of(nodes):
+            objs = [build(x) for x in nodes]
+            if wrap == "body":
+                return h.HTMLDocument(h.Tag("body", *objs))
+            if wrap == "html":
+                return h.HTMLDocument(h.Tag("html", h.Tag("body", *objs)))
+            return h.HTMLDocument(h.Tag("html", h.Tag("head", *objs[:1]), h.Tag("body", *objs[1:])))
+
+        w1 = doc_of(roots).render(lib_prefix=case["lib"])
+        w2 = doc_of(exp).render(lib_prefix=case["lib"]) if wrap != "html-head" else None
+        if wrap == "html-head":
+            # expansion lengths differ, so build the expanded document from the expanded parts
+            e_head, e_body = expand(roots[:1]), expand(roots[1:])
+            w2 = h.HTMLDocument(h.Tag("html", h.Tag("head", *[build(x) for x in e_head]), h.Tag("body", *[build(x) for x in e_body]))).render(lib_prefix=case["lib"])
+        check(w1["html"] == w2["html"], f"HTMLDocument.render() of a lone <{wrap}> differs from the document of the expanded tree", w2["html"], w1["html"])
+        check([S.snap(d) for d in w1["dependencies"]] == [S.snap(d) for d in w2["dependencies"]], f"HTMLDocument (lone <{wrap}>) dependencies differ from the expanded tree's")
     late = h.HTMLDocument()
     for x in roots:
         late.append(build(x))
